@@ -158,7 +158,7 @@ fn cases(run: &Run) -> Vec<Case> {
     let mut out = vec![];
     let mut unit_counts: BTreeSet<i32> = (1..=if thorough { 40 } else { 12 }).collect();
     // table sizes within +-2 units of every page boundary up to max_pages
-    let max_pages = if thorough { 66 } else { 18 };
+    let max_pages = if thorough { 34 } else { 18 };
     for heads in 1..=2 {
         for p in 1..=max_pages {
             for d in -2..=2 {
@@ -194,7 +194,7 @@ fn cases(run: &Run) -> Vec<Case> {
                         .filter(|t| grain == 1 || grain == units || *t % grain == 0)
                         .collect();
                     out.push(Case { units, heads, ppb, grain, totals: vec![units] });
-                    let pts: Vec<i32> = if thorough { pts } else { pts.into_iter().take(12).collect() };
+                    let pts: Vec<i32> = pts.into_iter().take(if thorough { 24 } else { 12 }).collect();
                     for (i, &a) in pts.iter().enumerate() {
                         out.push(Case { units, heads, ppb, grain, totals: vec![a, units] });
                         if thorough || units < 2000 {
